@@ -139,6 +139,24 @@ def fmtRoutes (rs : List (Bytes × List Bytes)) : String :=
   let dedup := rs.foldl (fun acc e => (acc.filter (·.1 ≠ e.1)) ++ [e]) []
   "routes " ++ ",".intercalate ((sortKV dedup).map (fun e => encB e.1 ++ "=" ++ encMethods e.2))
 
+def hexOf (s : Bytes) : String :=
+  String.ofList (s.flatMap (fun b => [hexDigit (b.toNat / 16), hexDigit (b.toNat % 16)]))
+
+def insertStr (x : String) : List String → List String
+  | [] => [x]
+  | y :: ys => if x < y then x :: y :: ys else y :: insertStr x ys
+def sortStr (l : List String) : List String := l.foldr insertStr []
+
+def pad3 (n : Nat) : String := (if n < 10 then "00" else if n < 100 then "0" else "") ++ toString n
+
+/-- The canonical structure dump printed by the `verif` hook `Tree.VerifDump`. -/
+partial def dumpNode : Node → String
+  | .mk seg _ mi hs idx cs =>
+    let keys := sortStr (hs.map (fun e => hexOf e.1))
+    let idxs := sortStr (idx.map (fun e => pad3 e.1.toNat ++ ":" ++ toString e.2))
+    s!"(v={hexOf seg.value} t={seg.kind.rank} mi={mi} h={",".intercalate keys} idx={",".intercalate idxs}" ++
+      String.join (cs.map (fun c => " " ++ dumpNode c)) ++ ")"
+
 def fmtAcc {α : Type} (f : α → String) : Acc α → String
   | .ok v => "ok:" ++ f v
   | .notExists => "not-exists"
@@ -398,6 +416,28 @@ def step (st : St) (line : String) : St × String :=
     let d : Option Bytes := if dump = "%!" then none else some (decB dump)
     let (r, body) := traceHelper d {}
     (st, s!"trace {fmtRec r} text={encB body}")
+  -- unit level (hooks guarded by the build tag `verif` export the internal functions)
+  | ["u-split", str] => (st, "split " ++ encL (splitString (decB str)))
+  | ["u-lp", a, b] => (st, s!"lp {longestPrefix (decB a) (decB b)}")
+  | ["u-seg", icpt, val] =>
+    match newSegment (decIcpt icpt) (decB val) with
+    | .ok seg =>
+      (st, s!"seg kind={seg.kind.rank} name={encB seg.name} ign={boolStr seg.ignoreName} rule={encB seg.rule} " ++
+           s!"suffix={encB seg.suffix} endpoint={boolStr seg.endpoint} amb={seg.ambiguousLength}")
+    | .error e => (st, fmtErr e)
+  | ["u-match", icpt, val, path] =>
+    let ic := decIcpt icpt
+    match newSegment ic (decB val) with
+    | .error e => (st, fmtErr e)
+    | .ok seg =>
+      match seg.match env ic (decB path) with
+      | .no => (st, "m 0")
+      | .unsupported => (st, "unsupported")
+      | .yes cap rest =>
+        let ps : Params := if seg.kind ≠ .str ∧ ¬ seg.ignoreName then [(seg.name, cap)] else []
+        (st, s!"m 1 params={encM ps} rest={encB rest}")
+  | ["dump", rid] =>
+    withRouter st rid (fun _ r => (st, "dump " ++ dumpNode r.tree.root))
   -- contexts
   | ["pf", v, res] =>
     let r : Acc Bytes :=
